@@ -42,17 +42,8 @@ func endsWithSep(c *Ctx, v ssa.Value) bool {
 	return false
 }
 
-func runC19(p *Program, e *Engine, r *Result, tier string) {
-	a := newAn(p, e, r, false) // folding off
-	if a == nil {
-		return
-	}
-	tf := findTables(a)
-	df := decodeFacts(a)
-	if tf == nil || df == nil {
-		return
-	}
-	ro := a.Ro
+// c19Prefix: every prefix test / rewrite on paths in the backend.
+func c19Prefix(a *An) {
 	// (1) prefix tests
 	n := 0
 	for _, fn := range a.P.srcFuncs(a.P.Main) {
@@ -85,6 +76,20 @@ func runC19(p *Program, e *Engine, r *Result, tier string) {
 	if n == 0 {
 		a.R.fail("no prefix test on paths found in the backend (vacuous: the recursive code was not recognised)")
 	}
+}
+
+func runC19(p *Program, e *Engine, r *Result, tier string) {
+	a := newAn(p, e, r, false) // folding off
+	if a == nil {
+		return
+	}
+	tf := findTables(a)
+	df := decodeFacts(a)
+	if tf == nil || df == nil {
+		return
+	}
+	ro := a.Ro
+	c19Prefix(a)
 	// (2) directory Create under a recursive watch registers the new directory
 	_, hv, hctx := handlerVisits(a, df)
 	if hctx == nil {
